@@ -193,7 +193,8 @@ def rule_rs_epipe(cx, rep, port='py'):
                 q = getattr(r, 'parent', None)
                 while q is not None and q is not h:
                     if isinstance(q, ast.If):
-                        guards.append(q.test)
+                        # a conjunction is false as soon as one conjunct is
+                        guards.extend(q.test.values if isinstance(q.test, ast.BoolOp) and isinstance(q.test.op, ast.And) else [q.test])
                     q = getattr(q, 'parent', None)
                 dead = any(isinstance(t_, ast.Compare) and len(t_.ops) == 1 and isinstance(t_.ops[0], (ast.Eq, ast.Is)) and dotted(t_.left) == tname and dotted(t_.comparators[0]) in ('IOError', 'OSError') and cls3 == 'BrokenPipeError' and tname != cls3 for t_ in guards)
                 if not dead:
@@ -206,9 +207,22 @@ def rule_rs_epipe(cx, rep, port='py'):
                 rep.holds('CSVWriter.{} broken-pipe handler re-raise'.format(mname), h, 'every BrokenPipeError is swallowed ({} re-raise(s) are Python 2 only)'.format(len(raises)))
     rep.require_count('broken-pipe handlers', n_h, 2, w)
     # finish(): flush errors from a dead pipe are swallowed, everything else propagates; closing iff close_stream_on_finish
-    cl = [n for n in walk_no_nested(fin) if isinstance(n, ast.If) and dotted(n.test) == 'self.close_stream_on_finish']
-    okc = len(cl) == 1 and any(isinstance(x, ast.Call) and dotted(x.func) == 'self.stream.close' for x in ast.walk(ast.Module(body=cl[0].body, type_ignores=[]))) and any(isinstance(x, ast.Call) and dotted(x.func) == 'self.stream.flush' for x in ast.walk(ast.Module(body=cl[0].orelse, type_ignores=[])))
-    rep.decide(okc, 'finish close/flush', cl[0] if cl else fin, 'close iff the writer owns the stream, otherwise flush', 'finish() does not close the stream it owns / flush the one it does not own')
+    gf = cfgmod.CFG(fin)
+    tn = [n for n in gf.nodes if n.kind == 'test' and dotted(n.ast) == 'self.close_stream_on_finish']
+    is_close = lambda n: cfgmod.node_contains(n, lambda x: isinstance(x, ast.Call) and dotted(x.func) == 'self.stream.close')  # noqa: E731
+    is_flush = lambda n: cfgmod.node_contains(n, lambda x: isinstance(x, ast.Call) and dotted(x.func) == 'self.stream.flush')  # noqa: E731
+    if len(tn) != 1:
+        rep.undecided('finish close/flush', fin, 'test of close_stream_on_finish not found in finish()')
+    else:
+        t_succ = [s_ for s_, lab in tn[0].succ if lab == 'T']
+        f_succ = [s_ for s_, lab in tn[0].succ if lab == 'F']
+        def reach(srcs, pred):
+            return any(pred(s_) or gf.exists_path(s_, pred, edge_ok=NORMAL) for s_ in srcs)
+        # owner: every normal path closes, none flushes; not owner: every normal path flushes, none closes
+        def must(srcs, pred):
+            return bool(srcs) and all(pred(s_) or not gf.exists_path(s_, lambda n: n is gf.exit, avoid=pred, edge_ok=NORMAL) for s_ in srcs)
+        okc = must(t_succ, is_close) and not reach(t_succ, is_flush) and must(f_succ, is_flush) and not reach(f_succ, is_close)
+        rep.decide(okc, 'finish close/flush', tn[0].ast, 'close iff the writer owns the stream, otherwise flush', 'finish() does not close the stream it owns / flush the one it does not own')
 
 
 def rule_rs_decerr(cx, rep, port='py'):
